@@ -27,6 +27,7 @@ import (
 	"github.com/youchainhq/go-youchain/core/types"
 	"github.com/youchainhq/go-youchain/event"
 	"github.com/youchainhq/go-youchain/local"
+	"github.com/youchainhq/go-youchain/miner"
 	"github.com/youchainhq/go-youchain/params"
 	"github.com/youchainhq/go-youchain/youdb"
 	"pgregory.net/rapid"
@@ -68,6 +69,10 @@ type ChainOp struct {
 	// graft: the graft is offered behind its last Prefix ancestors (one InsertChain batch: blocks the
 	// node may already know, then the graft)
 	Prefix int `json:"prefix,omitempty"`
+	// mine: the node's own block builder (the real miner worker) builds the next block on the current head,
+	// after the HEADERS of up to Ahead following blocks of the head's branch were imported (header chain
+	// ahead of the block chain, as after an interrupted fast sync). Only generated as the last op.
+	Ahead int `json:"ahead,omitempty"`
 }
 
 // GraftSpec is an adversarial block: a child of block Pos (1-based, modulo) of branch
@@ -182,6 +187,17 @@ func genChainCase(t *rapid.T) ChainCase {
 		default:
 			c.Ops = append(c.Ops, ChainOp{Kind: "sethead", N: rapid.IntRange(0, 20).Draw(t, "sethead")})
 		}
+	}
+	if rapid.IntRange(0, 2).Draw(t, "mine") == 0 {
+		// a node that holds only the lower part of a branch (the rest was never imported: its headers can
+		// run ahead), and whose own worker then builds on its head
+		b := rapid.IntRange(0, nb-1).Draw(t, "mbranch")
+		k := rapid.IntRange(1, lens[b]).Draw(t, "mupto")
+		c.Ops = []ChainOp{{Kind: "insert", Branch: b, From: 1, To: k}}
+		if b != 0 {
+			c.Ops = append([]ChainOp{{Kind: "insert", Branch: 0, From: 1, To: lens[0]}}, c.Ops...)
+		}
+		c.Ops = append(c.Ops, ChainOp{Kind: "mine", Ahead: rapid.SampledFrom([]int{0, 1, 2, 3, 5, 9}).Draw(t, "ahead")})
 	}
 	return c
 }
@@ -472,7 +488,9 @@ func runChainCase(c ChainCase) (res kit.Result) {
 	}
 	db := youdb.NewMemDatabase()
 	chainGenesis(db, c.Versions[0])
-	bc, err := core.NewBlockChain(db, solo.NewSolo(), new(event.TypeMux), params.ArchiveNode, local.FakeDetailDB())
+	engine, mux := solo.NewSolo(), new(event.TypeMux)
+	engine.Update(true, 0, 1) // allowed to seal (the worker's Prepare asks)
+	bc, err := core.NewBlockChain(db, engine, mux, params.ArchiveNode, local.FakeDetailDB())
 	if err != nil {
 		return kit.Fail("start-fails", "NewBlockChain: %v", err)
 	}
@@ -568,6 +586,59 @@ func runChainCase(c ChainCase) (res kit.Result) {
 			} else {
 				labels["valid-graft-offered"] = true
 			}
+		case "mine":
+			head := bc.CurrentBlock()
+			// successors of the head on some branch (the blocks a sync would have delivered next)
+			var ahead []*types.Header
+			cur := head.Hash()
+			for len(ahead) < op.Ahead {
+				var next *types.Block
+				for _, bs := range tr.branches {
+					for _, b := range bs {
+						if b.ParentHash() == cur && next == nil {
+							next = b
+						}
+					}
+				}
+				if next == nil {
+					break
+				}
+				ahead = append(ahead, next.Header())
+				cur = next.Hash()
+			}
+			if len(ahead) > 0 {
+				if _, err := bc.InsertGuaranteedHeaderChain(ahead); err != nil {
+					what = fmt.Sprintf("op %d: InsertGuaranteedHeaderChain(%d headers after the head) err=%v", oi, len(ahead), err)
+					ahead = nil
+				} else {
+					labels["header-chain-ahead"] = true
+				}
+			}
+			pool := core.NewTxPool(core.TxPoolConfig{NoLocals: true, Rejournal: time.Hour, PriceLimit: 1, PriceBump: 10, AccountSlots: 16, GlobalSlots: 64, AccountQueue: 16, GlobalQueue: 64, Lifetime: time.Hour}, bc)
+			w := miner.NewVerifWorker(engine, bc, mux)
+			w.SetTxPool(pool)
+			task := w.Build()
+			pool.Stop()
+			if task == nil {
+				return kit.Fail("worker-built-nothing", "op %d: the worker produced no block on head #%d (header chain %d ahead)", oi, head.NumberU64(), len(ahead))
+			}
+			built := task.Block().Header()
+			labels["worker-built"] = true
+			if built.ParentHash != head.Hash() {
+				return kit.Fail("worker-wrong-parent", "op %d: the worker built on %x, the head is %x", oi, built.ParentHash[:4], head.Hash().Bytes()[:4])
+			}
+			if err := core.VerifyYouVersionState(head.Header(), built); err != nil {
+				return kit.Fail("worker-header-rejected", "op %d: head #%d %v, header chain %d ahead (current header #%d %v): the block the node's own worker built on the head carries %v, which the verifier REJECTS after its parent: %v",
+					oi, head.NumberU64(), hdrOf(head.Header()), len(ahead), bc.CurrentHeader().Number.Uint64(), hdrOf(bc.CurrentHeader()), hdrOf(built), err)
+			}
+			if bc.CurrentHeader().Number.Uint64() > head.NumberU64() {
+				labels["current-header-above-current-block"] = true
+			}
+			if len(ahead) > 0 && hdrOf(bc.CurrentHeader()) != hdrOf(head.Header()) {
+				nontrivial = true
+				labels["worker-built-while-headers-ahead-differ"] = true
+			}
+			continue // (last op: the chain-level invariants below are about imported blocks)
 		case "sethead":
 			n := uint64(mod(op.N, int(bc.CurrentBlock().NumberU64())+1))
 			err := bc.SetHead(n)
